@@ -286,6 +286,7 @@ def _anchor_files():
 _AF = _anchor_files()
 _AF["C05"] = sorted(set(_AF.get("C05", [])) | set(_AF.get("C04", [])))
 _AF["C01"] = sorted(set(_AF.get("C01", [])) | {"src/impl_zeroize.rs"})
+PROPS["C14"].lean.append("GA.Bridge.HexBodies")
 for _pid in ALLOC_BODY_PROPS:
     if "GA.Bridge.AllocBodies" not in PROPS[_pid].lean:
         PROPS[_pid].lean.append("GA.Bridge.AllocBodies")
